@@ -51,7 +51,7 @@ Definition leak_app : app_static := mkApp (fun _ _ => (mkProg [] [] (R404 None),
 Definition leak_req : request := mkReq 1 [47; 255]%N false false false (lit "'http://localhost/%C3%BF'") [] false.
 Definition leak_ts : tstate :=
   mkT (Some (mkReq 0 (lit "/login") false false false (lit "'http://localhost/login?token=secret'") [] false))
-      (mkSt 200 (lit "200 OK") [] [(lit "sid", lit "sid=secret123")]) [[]; []; []].
+      (mkSt 200 (lit "200 OK") [] [(lit "sid", lit "sid=secret123")]) [([], None); ([], None); ([], None)].
 
 Lemma F11_variant_leaks :
   In (n_set_cookie, lit "sid=secret123")
@@ -70,8 +70,8 @@ Qed.
 (* retention                                                           *)
 (* ------------------------------------------------------------------ *)
 
-Definition tb_ok (n : nat) (tb : list (list nat)) : Prop :=
-  length tb = n /\ Forall (fun l => length l <= 1) tb.
+Definition tb_ok (n : nat) (tb : list errstate) : Prop :=
+  length tb = n /\ Forall (fun e => length (fst e) <= 1) tb.
 
 Lemma set_nth_length {A} k (v : A) l : length (set_nth k v l) = length l.
 Proof. revert k. induction l as [|x t IH]; intros [|k]; simpl; auto. Qed.
@@ -137,20 +137,41 @@ Proof.
   apply Forall_forall. intros l Hl. apply repeat_spec in Hl. subst. simpl. lia.
 Qed.
 
-Lemma concat_le tb : Forall (fun l : list nat => length l <= 1) tb -> length (concat tb) <= length tb.
+Lemma retained_le (tb : list errstate) :
+  Forall (fun e : errstate => length (fst e) <= 1) tb ->
+  length (flat_map (fun e : errstate => fst e ++ match snd e with Some i => [i] | None => [] end) tb)
+  <= 2 * length tb.
 Proof.
-  induction 1 as [|l t Hl Ht IH]; simpl; [lia|]. rewrite app_length. lia.
+  induction 1 as [|[l c] t Hl Ht IH]; simpl; [lia|]. rewrite !app_length. simpl in Hl.
+  destruct c; simpl; lia.
 Qed.
 
-Lemma alive_bound n ts : tb_ok n (t_tb ts) -> length (alive ts) <= 1 + n.
+(* 1 (the request cell) + per shared error object: the request in its traceback and the request whose
+   exception is its __context__ *)
+Lemma alive_bound n ts : tb_ok n (t_tb ts) -> length (alive ts) <= 1 + 2 * n.
 Proof.
-  intros [H1 H2]. unfold alive. rewrite app_length. pose proof (concat_le _ H2).
-  destruct (t_req ts) as [r|]; simpl; lia.
+  intros [H1 H2]. unfold alive. rewrite app_length.
+  match goal with
+  | |- context [length (flat_map ?f ?l)] =>
+      assert (G : length (flat_map f l) <= 2 * n) by (rewrite <- H1; exact (retained_le _ H2))
+  end.
+  destruct (t_req ts) as [r|]; cbn [length]; lia.
 Qed.
 
 Lemma retention_bounded app h :
-  length (alive (snd (run app (ts_fresh app) h))) <= 1 + a_shared app.
+  length (alive (snd (run app (ts_fresh app) h))) <= 1 + 2 * a_shared app.
 Proof. apply alive_bound, run_tb_ok, fresh_tb_ok. Qed.
+
+(* the stronger form, for applications whose shared errors are only ever raised from inside an except
+   block (every raise site of body_mixin.py except _get_body_string and the multipart branch of POST):
+   then the context owner is the traceback owner *)
+Definition ctx_tb_ok (tb : list errstate) : Prop :=
+  Forall (fun e : errstate => match snd e with Some i => fst e = [i] | None => fst e = [] end) tb.
+
+Lemma raise_inside_ctx id tb k : ctx_tb_ok tb -> ctx_tb_ok (raise_shared id tb (k, true)).
+Proof.
+  intros H. unfold raise_shared, ctx_tb_ok. apply set_nth_Forall; [reflexivity|exact H].
+Qed.
 
 (* and what is alive belongs to the last request or to the last request that made a shared error raise *)
 Lemma alive_req_last app h r :
@@ -162,14 +183,14 @@ Proof.
 Qed.
 
 (* the F12 variant: the chain of a shared error grows with every request that raises it *)
-Definition grow_app : app_static := mkApp (fun _ _ => (mkProg [] [] (R404 None), [0])) (fun _ => None) 1.
+Definition grow_app : app_static := mkApp (fun _ _ => (mkProg [] [] (R404 None), [(0, true)])) (fun _ => None) 1.
 Definition grow_req (i : nat) : request := mkReq i [47]%N false false false [] [] false.
 
 Lemma decode_slash : decode_path [47]%N = Some [47]%N.
 Proof. reflexivity. Qed.
 
 Lemma F12_step ts i :
-  t_tb (snd (serve_F12 grow_app ts (grow_req i))) = raise_shared_F12 i (t_tb ts) 0.
+  t_tb (snd (serve_F12 grow_app ts (grow_req i))) = raise_shared_F12 i (t_tb ts) (0, true).
 Proof.
   unfold serve_F12, serve_gen. cbn [q_raw grow_req]. rewrite decode_slash.
   destruct (t_tb_decoded raise_shared_F12 grow_app (mkT (Some (grow_req i)) st_init (t_tb ts)) (grow_req i) [47]%N)
@@ -183,20 +204,21 @@ Proof.
   cbn [fst snd]. destruct (run_gen raise_shared_F12 app ts1 t) as [rs ts2]. reflexivity.
 Qed.
 
-Lemma F12_grows : forall ids ts l,
-  t_tb ts = [l] ->
-  t_tb (snd (run_F12 grow_app ts (map grow_req ids))) = [rev ids ++ l].
+Lemma F12_grows : forall ids ts l c,
+  t_tb ts = [(l, c)] ->
+  exists c', t_tb (snd (run_F12 grow_app ts (map grow_req ids))) = [(rev ids ++ l, c')].
 Proof.
-  induction ids as [|i t IH]; intros ts l H; [exact H|].
-  cbn [map]. rewrite run_F12_cons. rewrite (IH _ (i :: l)).
-  - simpl. rewrite <- app_assoc. reflexivity.
+  induction ids as [|i t IH]; intros ts l c H; [exists c; exact H|].
+  cbn [map]. rewrite run_F12_cons.
+  destruct (IH (snd (serve_F12 grow_app ts (grow_req i))) (i :: l) (Some i)) as [c' E].
   - rewrite F12_step, H. reflexivity.
+  - exists c'. rewrite E. simpl. rewrite <- app_assoc. reflexivity.
 Qed.
 
 Lemma F12_variant_unbounded n :
   exists h, length h = n /\ n <= length (alive (snd (run_F12 grow_app (ts_fresh grow_app) h))).
 Proof.
   exists (map grow_req (seq 0 n)). split; [now rewrite map_length, seq_length|].
-  unfold alive. rewrite (F12_grows (seq 0 n) (ts_fresh grow_app) []) by reflexivity.
+  unfold alive. destruct (F12_grows (seq 0 n) (ts_fresh grow_app) [] None eq_refl) as [c' ->].
   rewrite app_length. simpl. rewrite !app_length, rev_length, seq_length. lia.
 Qed.
